@@ -7,6 +7,10 @@ Definition search_factor : Z := 4.
 Definition search_half_div : Z := 2.
 (* path.go Walk: 1 iff a final filepath.SkipDir is converted into nil (as path/filepath.Walk does) *)
 Definition walk_skipdir_to_nil : Z := 1.
+(* sftpfs/sftp.go MkdirAll: 1 iff the fast path returns an error for an existing non-directory *)
+Definition sftp_mkdirall_enotdir : Z := 1.
+(* sftpfs/sftp.go OpenFile: 1 iff the returned File carries the client *)
+Definition sftp_openfile_client : Z := 1.
 (* os.O_RDONLY on the build platform *)
 Definition o_rdonly : Z := 0.
 (* os.O_WRONLY on the build platform *)
